@@ -63,6 +63,9 @@ def run(R, tier):
         R.check(not d["bad"], "R19.1", "values:%s" % ty, "element i is the i-th number of the text; other dimension counts and unrepresentable numbers are refused (%d specs)" % d["n"], "; ".join(d["bad"][:3]), where=d["body"].span)
     R.floor("R19.1", "ChannelSpec conversions", len(per), 6)
 
+    # ---- R19.13 Iterator methods other than `next` ------------------------------------------------------------------------
+    CS.check_iterator_overrides(R, "R19.13")
+
     # ---- R19.9 / R19.3 NumericList::next start-set table -----------------------------------------------------
     nb = u.impl_methods("core::iter::Iterator", "next", "numeric_list::NumericList")
     if len(nb) != 1:
